@@ -183,9 +183,12 @@ def iterate_ds(ds, r):
     delay = r.get("delay", 0)
     opened = []
 
+    objs = []
+
     def consume(it):
         import time as _t
         for e in it:
+            objs.append(e)
             out.append(val(e))
             opened.append(OPENS[0])
             if delay:
@@ -251,6 +254,7 @@ def iterate_ds(ds, r):
     elif iface == "async":
         async def go():
             async for e in ds.as_numpy_iterator_async(file_parallelism=r.get("file_parallelism", 2), **kw):
+                objs.append(e)
                 out.append(val(e))
                 opened.append(OPENS[0])
                 if delay:
@@ -265,6 +269,9 @@ def iterate_ds(ds, r):
         consume(tfds)
     else:
         raise ValueError(iface)
+    if r.get("hold"):
+        # the consumer kept every example it was handed and looks at them only now (list(it), look-ahead, manual batching)
+        out[:] = [val(e) for e in objs]
     return out
 
 
